@@ -194,11 +194,22 @@ func (c *Cluster) Crash(n *Node, hostDown bool) {
 	}
 }
 
+// CrashUnreachable is Crash(n, true) on a network that reports the host as unreachable: packet writes towards it
+// fail at the sender instead of vanishing.
+func (c *Cluster) CrashUnreachable(n *Node) {
+	if !n.Running {
+		return
+	}
+	c.Net.SetHostUnreachable(n.Addr(), true)
+	c.Crash(n, true)
+}
+
 // Restart boots a fresh process with the same name and address.
 func (c *Cluster) Restart(n *Node) error {
 	if n.Running {
 		return fmt.Errorf("still running")
 	}
+	c.Net.SetHostUnreachable(n.Addr(), false)
 	c.Net.Remove(n.EP)
 	n.Gen++
 	n.Rec = puppet.NewRecorder()
